@@ -81,33 +81,29 @@ func (p *parser) parse() (e *expr.Expression, err error) {
 
 		if p.shouldShift(next) {
 			tok := p.shift()
+
+			// an operand that directly follows a finished operand (a literal, an expression, a closed
+			// group or a closed range) means we have an implicit AND we need to inject.
+			if startsOperand(tok) && p.endsOperand() {
+				implAnd := lex.Token{Typ: lex.TAnd, Val: "AND"}
+				// act as if we just saw an AND and keep reducing the current token
+				// stack until an explicit AND would have been shifted here.
+				for !p.shouldShift(implAnd) {
+					err = p.reduce()
+					if err != nil {
+						return e, err
+					}
+				}
+
+				p.stack = append(p.stack, implAnd)
+				p.nonTerminals = append(p.nonTerminals, implAnd)
+			}
+
 			if lex.IsTerminal(tok) {
 				// if we have a terminal parse it and put it on the stack
 				lit, err := parseLiteral(tok)
 				if err != nil {
 					return e, err
-				}
-
-				// we should always check if the current top of the stack is another token
-				// if it isn't then we have an implicit AND we need to inject.
-				if len(p.stack) > 0 {
-					_, isTopToken := p.stack[len(p.stack)-1].(lex.Token)
-					if !isTopToken {
-						implAnd := lex.Token{Typ: lex.TAnd, Val: "AND"}
-						// act as if we just saw an AND and keep reducing the current token
-						// stack until an explicit AND would have been shifted here.
-						for !p.shouldShift(implAnd) {
-							err = p.reduce()
-							if err != nil {
-								return e, err
-							}
-						}
-
-						// if we have a literal as the previous parsed thing then
-						// we must be in an implicit AND and should reduce
-						p.stack = append(p.stack, implAnd)
-						p.nonTerminals = append(p.nonTerminals, implAnd)
-					}
 				}
 
 				p.stack = append(p.stack, lit)
@@ -124,6 +120,32 @@ func (p *parser) parse() (e *expr.Expression, err error) {
 			return e, err
 		}
 	}
+}
+
+// startsOperand checks whether a token can only be the beginning of a new operand.
+func startsOperand(tok lex.Token) bool {
+	return tok.Typ == lex.TLiteral ||
+		tok.Typ == lex.TQuoted ||
+		tok.Typ == lex.TRegexp ||
+		tok.Typ == lex.TLParen ||
+		tok.Typ == lex.TPlus ||
+		tok.Typ == lex.TMinus ||
+		tok.Typ == lex.TNot
+}
+
+// endsOperand checks whether the top of the stack is the end of a finished operand: an already
+// parsed expression or the closing bracket of a group or range.
+func (p *parser) endsOperand() bool {
+	if len(p.stack) == 0 {
+		return false
+	}
+
+	tok, isToken := p.stack[len(p.stack)-1].(lex.Token)
+	if !isToken {
+		return true
+	}
+
+	return anyClosingBracket(tok)
 }
 
 func (p *parser) shift() (tok lex.Token) {
